@@ -411,7 +411,7 @@ def main():
   tot = dict.fromkeys(ST, 0)
   try:
     explore.explore(rep, "checks.C16", "C16Monitor", n_quick=600, n_thorough=8000,
-                    budget_quick_s=60, budget_thorough_s=800)
+                    budget_quick_s=50, budget_thorough_s=800)
     for f in os.listdir(d):
       with open(os.path.join(d, f)) as fh:
         for k, v in json.load(fh).items(): tot[k] += v
